@@ -146,7 +146,7 @@ var (
 )
 
 func hookYield(site string, key uint64) {
-	simcore.Progress.Add(1)
+	simcore.Bump()
 	if hooksOff.Load() {
 		return
 	}
